@@ -19,6 +19,8 @@ REGISTRY = {
     "C06": ("smv.deriv", "run_c06", "replay_case"),
     "C07": ("smv.deriv", "run_c07", "replay_case"),
     "C08": ("smv.rewrite_mc", "run_c08", "replay_case"),
+    "C09": ("smv.history_mc", "run_c09", "replay_case"),
+    "C10": ("smv.history_mc", "run_c10", "replay_case"),
     "C11": ("smv.rewrite_mc", "run_c11", "replay_case"),
     "C14": ("smv.coords", "run_c14", "replay_case"),
     "C17": ("smv.coords", "run_c17", "replay_case"),
